@@ -176,8 +176,8 @@ func hasLeadingOperatorStatement(n ast.Node) bool {
 	return found
 }
 
-// hasLineCommentOperand: a // comment in a non-statement position (operand of an operator, index, call...).
-func hasLineCommentOperand(n ast.Node) bool {
+// hasCommentOperand: a comment in a non-statement position (operand of an operator, index, call...).
+func hasCommentOperand(n ast.Node) bool {
 	found := false
 	var walk func(n ast.Node, stmt bool)
 	walkStmts := func(s *ast.Statements) {
@@ -194,7 +194,7 @@ func hasLineCommentOperand(n ast.Node) bool {
 		}
 		switch v := n.(type) {
 		case *ast.Comment:
-			if !stmt && v.Type() == token.LINECOMMENT {
+			if !stmt {
 				found = true
 			}
 		case *ast.Statements:
@@ -253,8 +253,8 @@ func c02Known(orig *ast.Statements, reparsed *ast.Statements, opt obs.DumpOpt) s
 	if hasLeadingOperatorStatement(orig) {
 		return "stmt-merge-leading-operator"
 	}
-	if hasLineCommentOperand(orig) {
-		return "line-comment-operand"
+	if hasCommentOperand(orig) {
+		return "comment-operand"
 	}
 	if reparsed != nil {
 		o2 := opt
